@@ -501,3 +501,168 @@ def accepted_set(A, fn, sc, param, lo=0, hi=0xFFFF):
             if val(p + 1):
                 out |= set(range(p + 1, pts[i + 1]))
     return out
+
+
+# ---------------------------------------------------------------------------------------------------------------
+# finite-domain tabulation: the outcome of a statement list for each value of one selector expression
+# ---------------------------------------------------------------------------------------------------------------
+class _Opaque:
+    """a value the tabulation does not know; any use of it in a decision makes the table UNDECIDED"""
+
+    def __init__(self, text):
+        self.text = text
+
+    def __repr__(self):
+        return f"<?{self.text[:40]}>"
+
+
+class _TJump(Exception):
+    pass
+
+
+def _tab_eval(P, fn, cls, expr, env, sel):
+    """value of `expr` with locals `env` ({name: value}) and selector texts `sel` ({normalised text: value}); Unknown if it is not closed"""
+    from .model import Unknown, unwrap
+    ev = lambda e: _tab_eval(P, fn, cls, e, env, sel)  # noqa: E731
+    t = norm(expr)
+    if t in sel:
+        return sel[t]
+    if isinstance(expr, ast.Name) and expr.id in env:
+        v = env[expr.id]
+        if isinstance(v, _Opaque):
+            raise Unknown(f"opaque {expr.id}")
+        return v
+    if isinstance(expr, ast.Compare):
+        left = ev(expr.left)
+        for op, c in zip(expr.ops, expr.comparators):
+            right = ev(c)
+            a, b = unwrap(left), right
+            if isinstance(op, (ast.In, ast.NotIn)):
+                if not isinstance(b, (list, tuple, set, dict, frozenset)):
+                    raise Unknown("in on non-container")
+                r = any(unwrap(x) == a for x in b)
+                r = r if isinstance(op, ast.In) else not r
+            else:
+                b = unwrap(b)
+                try:
+                    r = {ast.Eq: lambda: a == b, ast.NotEq: lambda: a != b, ast.Lt: lambda: a < b, ast.LtE: lambda: a <= b,
+                         ast.Gt: lambda: a > b, ast.GtE: lambda: a >= b, ast.Is: lambda: a is b, ast.IsNot: lambda: a is not b}[type(op)]()
+                except Exception as e:
+                    raise Unknown(str(e))
+            if not r:
+                return False
+            left = right
+        return True
+    if isinstance(expr, ast.BoolOp):
+        last = None
+        for v in expr.values:
+            last = ev(v)
+            if isinstance(expr.op, ast.And) and not last:
+                return last
+            if isinstance(expr.op, ast.Or) and last:
+                return last
+        return last
+    if isinstance(expr, ast.UnaryOp) and isinstance(expr.op, ast.Not):
+        return not ev(expr.operand)
+    if isinstance(expr, ast.IfExp):
+        return ev(expr.body) if ev(expr.test) else ev(expr.orelse)
+    if isinstance(expr, ast.Tuple):
+        return tuple(ev(e) for e in expr.elts)
+    if isinstance(expr, ast.List):
+        return [ev(e) for e in expr.elts]
+    if isinstance(expr, ast.Dict) and all(k is not None for k in expr.keys):
+        return {ev(k): ev(v) for k, v in zip(expr.keys, expr.values)}
+    if isinstance(expr, ast.Subscript) and not isinstance(expr.slice, ast.Slice):
+        base, k = ev(expr.value), ev(expr.slice)
+        if isinstance(base, dict):
+            for kk, vv in base.items():
+                if unwrap(kk) == unwrap(k):
+                    return vv
+            raise Unknown("KeyError")
+        if isinstance(base, (list, tuple)) and isinstance(unwrap(k), int):
+            try:
+                return base[unwrap(k)]
+            except IndexError:
+                raise Unknown("IndexError")
+        raise Unknown("subscript")
+    if isinstance(expr, ast.Call) and isinstance(expr.func, ast.Attribute) and expr.func.attr == "get" and 1 <= len(expr.args) <= 2 and not expr.keywords:
+        base = ev(expr.func.value)
+        if isinstance(base, dict):
+            k = ev(expr.args[0])
+            for kk, vv in base.items():
+                if unwrap(kk) == unwrap(k):
+                    return vv
+            return ev(expr.args[1]) if len(expr.args) == 2 else None
+        raise Unknown(".get on non-dict")
+    if isinstance(expr, ast.Attribute):
+        # <selector>.attr and the like are not closed; everything else is a constant path
+        for n in ast.walk(expr):
+            if isinstance(n, ast.Name) and n.id in env:
+                raise Unknown("attribute of a local")
+    names = {n.id for n in ast.walk(expr) if isinstance(n, ast.Name)}
+    if names & {k for k, v in env.items() if isinstance(v, _Opaque)}:
+        raise Unknown("opaque local")
+    return P.const_eval(expr, fn.module, cls=cls, env={k: v for k, v in env.items() if not isinstance(v, _Opaque)})
+
+
+def tabulate(P, fn, cls, stmts, selector_texts, domain, env0=None):
+    """{value: outcome} for each value in `domain` of the selector expression(s) (normalised texts): outcome is ("return", v), ("raise", text)
+    or ("fall", None); expression statements (logging) are skipped, assignments update the local store, a branch condition that does not
+    close under the selector raises AnalysisError (the table is UNDECIDED rather than guessed)."""
+    from .model import Unknown
+    from .normalize import InlineBlock
+
+    def run(stmts, env, sel):
+        for st in stmts:
+            if isinstance(st, (ast.Expr, ast.Pass)):
+                continue
+            if isinstance(st, ast.Assign) and len(st.targets) == 1 and isinstance(st.targets[0], ast.Name):
+                try:
+                    env[st.targets[0].id] = _tab_eval(P, fn, cls, st.value, env, sel)
+                except (Unknown, AnalysisError):
+                    env[st.targets[0].id] = _Opaque(norm(st.value))
+                continue
+            if isinstance(st, ast.Assign):
+                continue
+            if isinstance(st, ast.If):
+                try:
+                    c = _tab_eval(P, fn, cls, st.test, env, sel)
+                except (Unknown, AnalysisError) as e:
+                    raise AnalysisError(f"tabulate: condition `{norm(st.test)[:80]}` at {fn.qualname}:{st.lineno} is not decided by the selector ({e})")
+                r = run(st.body if c else st.orelse, env, sel)
+                if r is not None:
+                    return r
+                continue
+            if isinstance(st, ast.Return):
+                if st.value is None:
+                    return ("return", None)
+                try:
+                    return ("return", _tab_eval(P, fn, cls, st.value, env, sel))
+                except (Unknown, AnalysisError):
+                    return ("return", _Opaque(norm(st.value)))
+            if isinstance(st, ast.Raise):
+                return ("raise", norm(st.exc) if st.exc is not None else "re-raise")
+            if isinstance(st, InlineBlock):
+                r = None
+                try:
+                    r = run(st.prologue, env, sel)
+                    if r is None:
+                        r = run(st.body, env, sel)
+                except _TJump:
+                    r = None
+                if r is not None:
+                    return r
+                r = run(st.epilogue, env, sel)
+                if r is not None:
+                    return r
+                continue
+            if isinstance(st, InlineJump):
+                raise _TJump()
+            raise AnalysisError(f"tabulate: statement `{norm(st)[:60]}` at {fn.qualname}:{getattr(st, 'lineno', 0)} not understood")
+        return None
+    out = {}
+    for v in domain:
+        sel = {t: v for t in selector_texts}
+        r = run(stmts, dict(env0 or {}), sel)
+        out[v] = r if r is not None else ("fall", None)
+    return out
